@@ -82,6 +82,7 @@ func runC04(c *report.Ctx) {
 	name := an.FuncName(outer)
 	// count = uint16(len(intAgents) + len(extAgents)), both from the INVOKE subscription queries
 	var intAlloc, extAlloc *ssa.Alloc
+	var intQ, extQ ssa.Value // the two subscription queries: "the counted slices" are whatever holds their results
 	okEvent := true
 	for _, q := range []struct {
 		callee string
@@ -99,21 +100,26 @@ func runC04(c *report.Ctx) {
 						}
 					}
 				}
+				if q.dst == &intAlloc {
+					intQ = v
+				} else {
+					extQ = v
+				}
 			}
 			g := guardedByTrue(facts, call, "L/extensions.AreEnabled")
 			c.Check("R-GUARD", sprintf("%s/guard/%s", name, strings.TrimPrefix(q.callee, regSvcI)), "subscribers are queried exactly when extensions are enabled", g, an.InstrPos(call), 1, "under extensions.AreEnabled(): %v", g)
 		}
 	}
-	c.Check("R-CONST", name+"/subscription-event", "the parties of an invocation are the extensions subscribed to INVOKE (not SHUTDOWN, not all)", okEvent && intAlloc != nil && extAlloc != nil, fpos(outer), 2, "both queries use the INVOKE constant: %v", okEvent)
+	c.Check("R-CONST", name+"/subscription-event", "the parties of an invocation are the extensions subscribed to INVOKE (not SHUTDOWN, not all)", okEvent && intQ != nil && extQ != nil, fpos(outer), 2, "both queries use the INVOKE constant: %v", okEvent)
 	for _, call := range an.CallsTo(outer, invokeFlowI+"SetAgentsReadyCount") {
 		okSum := false
 		if bo, k := an.Strip(call.Common().Args[0], true).(*ssa.BinOp); k && bo.Op == token.ADD {
 			lx, k1 := an.LenArg(bo.X)
 			ly, k2 := an.LenArg(bo.Y)
-			if k1 && k2 {
-				a1, a2 := loadedAlloc(lx), loadedAlloc(ly)
-				okSum = (a1 == intAlloc && a2 == extAlloc) || (a1 == extAlloc && a2 == intAlloc)
-				okSum = okSum && intAlloc != nil && extAlloc != nil
+			if k1 && k2 && intQ != nil && extQ != nil {
+				ox, oy := queryOrigins(outer, lx), queryOrigins(outer, ly)
+				only := func(o map[ssa.Value]bool, q ssa.Value) bool { return len(o) == 1 && o[q] }
+				okSum = only(ox, intQ) && only(oy, extQ) || only(ox, extQ) && only(oy, intQ)
 			}
 		}
 		c.Check("R-WIRE", name+"/count-is-number-of-subscribers", "the number of extensions awaited is exactly the number of INVOKE subscribers (internal + external) about to be released", okSum, an.InstrPos(call), 2, "argument is len(intAgents)+len(extAgents) of the queried slices: %v", okSum)
@@ -172,6 +178,16 @@ func runC04(c *report.Ctx) {
 			if ia, k := u.X.(*ssa.IndexAddr); k {
 				slice := ia.X
 				fromCounted := freeVarBinding(rel, slice) == ssa.Value(alloc) && alloc != nil
+				if !fromCounted {
+					// the slice may reach the closure through a cell of its own: it is the counted one if all it can
+					// hold is the result of that kind's query
+					q := extQ
+					if kind == "intAgents" {
+						q = intQ
+					}
+					o := queryOrigins(rel, slice)
+					fromCounted = q != nil && len(o) == 1 && o[q]
+				}
 				// loop bound is len(same slice), index runs from 0 in steps of 1
 				full := false
 				if bo := loopBound(rs.Block()); bo != nil {
@@ -390,4 +406,57 @@ func checkInvokeWaitsForExtensions(c *report.Ctx) {
 		ok := len(an.CallsTo(h, "L/extensions.AreEnabled")) == 1 && len(an.CallsTo(h, regSvcI+"CountAgents")) == 1
 		c.Check("R-GUARD", an.FuncName(h)+"/definition", "'active extensions' means extensions enabled and at least one registered", ok, fpos(h), 2, "%v", ok)
 	}
+}
+
+// queryOrigins: the call results a slice value can hold, followed through joins (nil edges ignored), local and
+// captured cells (every store into them) and closure bindings.
+func queryOrigins(g *ssa.Function, v ssa.Value) map[ssa.Value]bool {
+	out := map[ssa.Value]bool{}
+	seen := map[ssa.Value]bool{}
+	var walk func(g *ssa.Function, v ssa.Value, depth int)
+	walk = func(g *ssa.Function, v ssa.Value, depth int) {
+		if v == nil || seen[v] || depth > 12 {
+			return
+		}
+		seen[v] = true
+		v = an.Strip(v, true)
+		switch x := v.(type) {
+		case *ssa.Const:
+		case *ssa.Phi:
+			for _, e := range x.Edges {
+				walk(g, e, depth+1)
+			}
+		case *ssa.Call:
+			out[x] = true
+		case *ssa.Alloc:
+			for _, h := range an.WithAnon(outermost(x.Parent())) {
+				an.AllInstrs(h, func(in ssa.Instruction) {
+					if st, ok := in.(*ssa.Store); ok && chanCell(st.Addr) == ssa.Value(x) {
+						walk(h, st.Val, depth+1)
+					}
+				})
+			}
+		case *ssa.UnOp:
+			if x.Op == token.MUL {
+				switch a := x.X.(type) {
+				case *ssa.Alloc:
+					walk(g, a, depth+1)
+				case *ssa.FreeVar:
+					if cell := chanCell(a); cell != ssa.Value(a) {
+						walk(g, cell, depth+1)
+					} else {
+						out[x] = true
+					}
+				default:
+					out[x] = true
+				}
+			} else {
+				out[x] = true
+			}
+		default:
+			out[v] = true
+		}
+	}
+	walk(g, v, 0)
+	return out
 }
